@@ -79,6 +79,69 @@ class VirtualClock:
         self.t += s
 
 
+class _TimeShim:
+    """Stands in for the `time` module (or single functions imported from it) inside the solver's modules:
+    monotonic / perf_counter / time read the same virtual clock as datetime.now()."""
+
+    def __init__(self, clock):
+        self._c = clock
+
+    def monotonic(self):
+        self._c.t += 0.001
+        return 1.0e6 + self._c.t
+
+    perf_counter = monotonic
+
+    def monotonic_ns(self):
+        return int(self.monotonic() * 1e9)
+
+    perf_counter_ns = monotonic_ns
+
+    def time(self):
+        self._c.t += 0.001
+        return (self._c.base - _dt.datetime(1970, 1, 1)).total_seconds() + self._c.t
+
+    def time_ns(self):
+        return int(self.time() * 1e9)
+
+    def __getattr__(self, name):
+        import time as _t
+        return getattr(_t, name)
+
+
+def install_clock(clock, prefix='matchingproblems.solver'):
+    """Every clock the solver's modules can read is the virtual one: the name `datetime` (module or class) and
+    the name `time` / monotonic / perf_counter / ... in each loaded module under *prefix*.  Returns undo()."""
+    import time as _t
+    shim = _TimeShim(clock)
+    saved = []
+    for nm, mod in list(sys.modules.items()):
+        if mod is None or not (nm == prefix or nm.startswith(prefix + '.') or nm.startswith(prefix)):
+            continue
+        ns = vars(mod)
+        if ns.get('datetime') is _dt:
+            saved.append((mod, 'datetime', _dt))
+            mod.datetime = clock
+        elif ns.get('datetime') is _dt.datetime:
+            saved.append((mod, 'datetime', _dt.datetime))
+            mod.datetime = clock.datetime
+        for name in ('time', 'monotonic', 'perf_counter', 'monotonic_ns', 'perf_counter_ns', 'time_ns'):
+            v = ns.get(name)
+            if v is None:
+                continue
+            if v is _t:
+                saved.append((mod, name, v))
+                setattr(mod, name, shim)
+            elif getattr(_t, name, None) is v:
+                saved.append((mod, name, v))
+                setattr(mod, name, getattr(shim, name))
+
+    def undo():
+        for mod, name, v in saved:
+            setattr(mod, name, v)
+    return undo
+
+
 class LPTap:
     def __init__(self):
         self.reset()
